@@ -233,7 +233,11 @@ func runOne(t *testing.T, e Env, w *writer, meta Meta, i int, fn func(c *Case) R
 		res = fn(c)
 	}()
 	if res.Verdict == Violated {
-		violations.Add(1)
+		n := int64(1)
+		if time.Since(t0) > 15*time.Second {
+			n = 5 // a violation that costs a watchdog (hang, leaked lock): five witnesses of those are enough
+		}
+		violations.Add(n)
 	}
 	w.emit(map[string]any{"ev": "end", "workload": meta.Workload, "case": i, "ms": time.Since(t0).Milliseconds(), "res": res})
 }
@@ -260,12 +264,56 @@ func Watchdog(d time.Duration, f func()) (ok bool, dump string) {
 		defer close(done)
 		f()
 	}()
-	select {
-	case <-done:
-		return true, ""
-	case <-time.After(d):
-		return false, AllStacks()
+	deadline := time.After(d)
+	// A leaked lock is recognisable long before the deadline: the same library goroutine parked on the same mutex
+	// in three dumps taken 5 s apart (after 10 s of grace) ends the wait early. The verdict is still formed by the
+	// caller from the dump.
+	probe := time.NewTimer(10 * time.Second)
+	defer probe.Stop()
+	var prev map[string]string
+	streak := 0
+	for {
+		select {
+		case <-done:
+			return true, ""
+		case <-deadline:
+			return false, AllStacks()
+		case <-probe.C:
+			cur := parkedOnMutex()
+			if prev != nil {
+				for id, site := range cur {
+					if prev[id] != site {
+						delete(cur, id)
+					}
+				}
+			}
+			if len(cur) == 0 {
+				prev, streak = nil, 0
+			} else {
+				prev = cur
+				streak++
+			}
+			if streak >= 3 {
+				return false, AllStacks()
+			}
+			probe.Reset(5 * time.Second)
+		}
 	}
+}
+
+// parkedOnMutex lists the goroutines (id -> innermost library function) that have a library frame and sit in
+// sync.(RW)Mutex.Lock right now.
+func parkedOnMutex() map[string]string {
+	m := map[string]string{}
+	for _, g := range ParseStacks(AllStacks()) {
+		if !strings.Contains(g.Text, LibPrefix) {
+			continue
+		}
+		if strings.Contains(g.Header, "sync.Mutex.Lock") || strings.Contains(g.Header, "sync.RWMutex") {
+			m[strings.SplitN(g.Header, " ", 3)[1]] = g.InnermostLib()
+		}
+	}
+	return m
 }
 
 func AllStacks() string {
